@@ -476,6 +476,43 @@ def oracle(ctx):
             continue
         check_svd(ctx, info, A, u, s, vh, k, mode == "lowest", "svd:%s" % method, 1e-5 if method == "davidson" else 1e-8,
                   relative=amp != 1.0)
+    # svd of matrix-free operators (only the forward product, or forward and adjoint products): the products A^H A / A A^H are then
+    # composed operators (round-4 seed C05/11: the order of the factors in the product's forward application)
+    class MF(xt.LinearOperator):
+        def __init__(self, m_, with_rmv):
+            super().__init__(shape=m_.shape, is_hermitian=False, dtype=m_.dtype, device=m_.device)
+            self.m_ = m_
+            self.with_rmv = with_rmv
+
+        def _mv(self, x):
+            return torch.matmul(self.m_, x.unsqueeze(-1)).squeeze(-1)
+
+        def _getparamnames(self, prefix=""):
+            return [prefix + "m_"]
+
+    class MFR(MF):
+        def _rmv(self, x):
+            return torch.matmul(self.m_.transpose(-2, -1).conj(), x.unsqueeze(-1)).squeeze(-1)
+    for rep in range(ctx.n(8, 60)):
+        g = gen(rng)
+        m, n = [(4, 4), (5, 3), (3, 5), (6, 6), (2, 4), (3, 3), (5, 5), (4, 2)][rep % 8]
+        cls_ = MFR if rep % 2 else MF
+        method = ["exacteig", "custom_exacteig", "davidson"][rep % 3]
+        mn = min(m, n)
+        k = mn if rep % 4 < 2 else max(1, mn - 1)
+        mode = "uppest" if rep % 3 else "lowest"
+        A = torch.randn(m, n, dtype=DT, generator=g)
+        info = {"fn": "svd", "operator": "matrix-free (%s)" % ("_mv and _rmv" if cls_ is MFR else "_mv only"), "method": method, "m": m, "n": n, "k": k, "mode": mode,
+                "generator_seed": g.initial_seed()}
+        ctx.count(("svd-matrix-free", rep, method, m, n, k, mode), nontrivial=True)
+        try:
+            with warnings.catch_warnings():
+                warnings.simplefilter("ignore")
+                u, s_, vh = svd(cls_(A, cls_ is MFR), k, mode, method=method, **({"min_eps": 1e-10} if method == "davidson" else {}))
+        except Exception as ex:
+            ctx.fail("oracle", "svd:matrix-free:%s:exception" % method, info, repr(ex)[:300], "singular triplets")
+            continue
+        check_svd(ctx, info, A, u.detach(), s_.detach(), vh.detach(), k, mode == "lowest", "svd:matrix-free:%s" % method, 1e-5 if method == "davidson" else 1e-8)
     known_svd_rank_deficient(ctx)
 
 
